@@ -305,7 +305,34 @@ func (p *Parser) ParseUnaryExpression() ast.Expression {
 	}
 	p.NextToken()
 	expression.Right = p.expressionParseFn(p, UNARY)
+	if expression.Token.Type == token.INCREMENT || expression.Token.Type == token.DECREMENT {
+		p.checkAssignmentTarget(expression.Right, expression.Token)
+	}
 	return expression
+}
+
+// isAssignmentTarget reports whether an expression may stand on the left of an
+// assignment or under ++ / --. Expressions of the core forms that JavaScript
+// never accepts there (literals, operator and call expressions, functions) are
+// not targets; identifiers, member accesses, parenthesised expressions, patterns
+// and nodes supplied by plugins are left alone.
+func isAssignmentTarget(e ast.Expression) bool {
+	switch e.(type) {
+	case *ast.IntegerLiteral, *ast.FloatLiteral, *ast.StringLiteral, *ast.MultiStringLiteral,
+		*ast.BooleanLiteral, *ast.NullLiteral, *ast.BinaryExpression, *ast.UnaryExpression,
+		*ast.PostfixExpression, *ast.CallExpression, *ast.AssignmentExpression,
+		*ast.CompoundAssignmentExpression, *ast.FunctionExpression:
+		return false
+	}
+	return true
+}
+
+// checkAssignmentTarget records an error at the operator when the operand it
+// assigns to is not a target.
+func (p *Parser) checkAssignmentTarget(operand ast.Expression, operator token.Token) {
+	if !isAssignmentTarget(operand) {
+		p.AddErrorAtToken("invalid assignment target", operator)
+	}
 }
 
 func (p *Parser) ParsePostfixExpression(left ast.Expression) ast.Expression {
@@ -314,6 +341,7 @@ func (p *Parser) ParsePostfixExpression(left ast.Expression) ast.Expression {
 		Left:     left,
 		Operator: p.CurrentToken.Literal,
 	}
+	p.checkAssignmentTarget(left, expression.Token)
 	return expression
 }
 
@@ -407,6 +435,7 @@ func (p *Parser) ParseAssignmentExpression(left ast.Expression) ast.Expression {
 		Token: p.CurrentToken,
 		Left:  left,
 	}
+	p.checkAssignmentTarget(left, expression.Token)
 	p.NextToken()
 	expression.Value = p.ParseExpression()
 	return expression
@@ -423,6 +452,7 @@ func (p *Parser) ParseCompoundAssignmentExpression(left ast.Expression) ast.Expr
 	case token.MINUS_ASSIGN:
 		expression.Operator = "-"
 	}
+	p.checkAssignmentTarget(left, expression.Token)
 	p.NextToken()
 	expression.Value = p.ParseExpression()
 	return expression
